@@ -1,21 +1,32 @@
 (* C12 - rendering always returns; goroutines do not accumulate.
-   Theorems only; see DESIGN.md section 6 (C12).  Model: Sys/Pipeline.v. *)
+   Theorems only; see DESIGN.md section 6 (C12).  Model: Sys/Pipeline.v.
+   Tie to the source: Generated/SysProgs.v holds the statement skeleton of ToTriangles / ToSTL /
+   To3MF / ToDXF / ToSVG, of WriteTriangles / writeSTL / write3MF / writeDXF / writeSVG with their
+   writer goroutines, of evalRoutines and of marchingCubes, extracted from the current Go source
+   (harness/sysgen); Sys/PipeProg.v gives a call (driver + writer function + goroutine) a
+   small-step meaning and proves it a refinement of Pipeline.v; Sys/PoolProg.v does the same
+   for the goroutine pool.  The C12_source_* theorems are about the GENERATED programs. *)
+From Coq Require Import String.
 From Coq Require Import List Arith NArith.
+From Sdfx Require Import Sys.SysLang.
 From Sdfx Require Import Sys.Pipeline.
-From Sdfx Require Import Generated.BufferConsts.
+From Sdfx Require Import Sys.PipeProg Sys.PoolProg.
+From Sdfx Require Import Generated.BufferConsts Generated.SysProgs.
+From Sdfx Require Import Sys.SysProgsC12.
 Import ListNotations.
 
 (* Repaired protocol (the writer keeps draining the channel after a write error):
    for all batch lists and all failure points, every execution is finite
    (at most `measure` steps) and the only states without an enabled step are those
    where the call has returned, the writer goroutine has finished and nothing is
-   left unsent; the file is then either complete or cut at the failing item with the
+   left unsent; the file is then either complete (finalised iff the finalisation calls -
+   header rewrite, encode, save - succeed, fin_ok) or cut at the failing item with the
    header left untouched. *)
-Theorem C12_always_returns : forall (A : Type) (batches : list (list A)) (fail : option nat),
-  (forall s n s', reachable Repaired fail (init batches) s -> path Repaired fail s n s' -> n <= measure s) /\
-  (forall s, reachable Repaired fail (init batches) s -> stuck Repaired fail s ->
+Theorem C12_always_returns : forall (A : Type) (batches : list (list A)) (fail : option nat) (fin_ok : bool),
+  (forall s n s', reachable Repaired fail fin_ok (init batches) s -> path Repaired fail fin_ok s n s' -> n <= measure s) /\
+  (forall s, reachable Repaired fail fin_ok (init batches) s -> stuck Repaired fail fin_ok s ->
              main_done s = true /\ con s = Done /\ todo s = [] /\
-             ((complete batches s /\ (forall f, fail = Some f -> length (concat batches) <= f))
+             ((complete fin_ok batches s /\ (forall f, fail = Some f -> length (concat batches) <= f))
               \/ truncated fail batches s)).
 Proof. exact repaired_always_returns. Qed.
 Print Assumptions C12_always_returns.
@@ -28,8 +39,8 @@ Print Assumptions C12_create_failure_returns.
 
 (* The scheduler evaluated in the cases files produces a maximal execution, so by
    C12_always_returns its outcome is the outcome of every execution. *)
-Theorem C12_final_is_maximal : forall (A : Type) (P : proto) (fail : option nat) (batches : list (list A)),
-  reachable P fail (init batches) (final P fail batches) /\ stuck P fail (final P fail batches).
+Theorem C12_final_is_maximal : forall (A : Type) (P : proto) (fail : option nat) (fin_ok : bool) (batches : list (list A)),
+  reachable P fail fin_ok (init batches) (final P fail fin_ok batches) /\ stuck P fail fin_ok (final P fail fin_ok batches).
 Proof. exact final_is_maximal. Qed.
 Print Assumptions C12_final_is_maximal.
 
@@ -47,9 +58,9 @@ Print Assumptions C12_goroutines_exact.
 (* The pinned code (writer returns on the first write error): whenever the failing
    item lies in a batch that is not the last one, a deadlock is reachable: the
    renderer is blocked on its send, the writer has returned, ToSTL never returns. *)
-Theorem C12_hang_refuted : forall (A : Type) (pre : list (list A)) (b : list A) (post : list (list A)) (f : nat),
+Theorem C12_hang_refuted : forall (A : Type) (fin_ok : bool) (pre : list (list A)) (b : list A) (post : list (list A)) (f : nat),
   post <> [] -> length (concat pre) <= f < length (concat pre) + length b ->
-  exists s, reachable Pinned (Some f) (init (pre ++ b :: post)) s /\ deadlocked Pinned (Some f) s.
+  exists s, reachable Pinned (Some f) fin_ok (init (pre ++ b :: post)) s /\ deadlocked fin_ok Pinned (Some f) s.
 Proof. exact pinned_hang. Qed.
 Print Assumptions C12_hang_refuted.
 
@@ -57,6 +68,72 @@ Print Assumptions C12_hang_refuted.
 Theorem C12_leak_refuted : forall ncpu k, spawned Pinned ncpu (repeat true k) = k * ncpu.
 Proof. exact pinned_leak. Qed.
 Print Assumptions C12_leak_refuted.
+
+(* ------------------------------------------------------------------ tie to the source by translation *)
+
+(* A call = a To* driver with the writeXXX function it names and that function's goroutine, as
+   found in the source.  `source_call_returns A dp wp wn bn` (Sys/PipeProg.v) says: the two
+   programs parse (driver: create, render, close(channel), Wait in this order; writer: creating
+   calls that return their error, unbuffered channel, wg.Add(1) BEFORE the go statement; goroutine:
+   deferred wg.Done(), receive loop, item loop whose error path drains the channel before it
+   returns, finalisation whose error paths return), the driver names writer wn and buffer bn, a
+   writer that can fail has a driver that returns on the error, and therefore, in the
+   small-step semantics of the call - every interleaving of caller, renderer sends and writer
+   goroutine; a write error at ANY item or none; ANY subset of the finalisation calls failing;
+   ANY of the creating calls failing -
+     * every execution is finite (bounded by a measure of the initial state), and
+     * an execution can only stop with the caller returned and the WaitGroup at zero, and either
+       nothing was started (the output could not be created) or the goroutine is gone, nothing
+       is unsent and the output is complete (finalised iff the finalisation succeeded) or cut
+       exactly at the failing item.
+   The semantics is a refinement of Pipeline.v: PipeProg.sim_step maps every step to a step
+   of Pipeline.next or to no step. *)
+Theorem C12_source_ToSTL_returns : forall A : Type,
+  source_call_returns A ToSTL writeSTL "writeSTL"%string "Triangle3Buffer"%string.
+Proof. exact ToSTL_returns. Qed.
+Print Assumptions C12_source_ToSTL_returns.
+
+Theorem C12_source_To3MF_returns : forall A : Type,
+  source_call_returns A To3MF write3MF "write3MF"%string "Triangle3Buffer"%string.
+Proof. exact To3MF_returns. Qed.
+Print Assumptions C12_source_To3MF_returns.
+
+Theorem C12_source_ToDXF_returns : forall A : Type,
+  source_call_returns A ToDXF writeDXF "writeDXF"%string "Line2Buffer"%string.
+Proof. exact ToDXF_returns. Qed.
+Print Assumptions C12_source_ToDXF_returns.
+
+Theorem C12_source_ToSVG_returns : forall A : Type,
+  source_call_returns A ToSVG writeSVG "writeSVG"%string "Line2Buffer"%string.
+Proof. exact ToSVG_returns. Qed.
+Print Assumptions C12_source_ToSVG_returns.
+
+Theorem C12_source_ToTriangles_returns : forall A : Type,
+  source_call_returns A ToTriangles WriteTriangles "WriteTriangles"%string "Triangle3Buffer"%string.
+Proof. exact ToTriangles_returns. Qed.
+Print Assumptions C12_source_ToTriangles_returns.
+
+(* The semantics of a call refines Pipeline.v, for every consumer of the grammar (draining or
+   not: protocol Repaired resp. Pinned), every driver, every failure choice: each step is a step
+   of Pipeline.next on the abstracted state or leaves it unchanged and decreases a rank. *)
+Theorem C12_source_semantics_refines_model :
+  forall (A : Type) (K : consumer) (opens : nat) (hret : bool) (fail : option nat) (ffail : prim -> bool) (cfail : option nat),
+    create_fails opens cfail = false ->
+    forall c c' : ist A, IInv K c -> istep K opens hret fail ffail cfail c c' ->
+      Pipeline.step (PipeProg.P K) (pfail K fail) (PipeProg.fin_ok K ffail) (abs K ffail c) (abs K ffail c') \/
+      (abs K ffail c' = abs K ffail c /\ rank K c' < rank K c).
+Proof. exact sim_step. Qed.
+Print Assumptions C12_source_semantics_refines_model.
+
+(* The pool: the extracted evalRoutines starts one routine per CPU; the extracted
+   marchingCubes starts them through a sync.Once before it evaluates the first layer; the
+   effect on the pool is render_pool Repaired, for every CPU count and every pool state. *)
+Theorem C12_source_pool_started_once : forall (ncpu : nat) (pl : pool),
+  pool_stmts "evalRoutines"%string (go_count ncpu (strip evalRoutines)) (strip marchingCubes) pl
+    = Some (render_pool Repaired ncpu pl true) /\
+  starts_before_eval (strip marchingCubes) = true.
+Proof. exact source_pool. Qed.
+Print Assumptions C12_source_pool_started_once.
 
 (* non-vacuity / witnesses: ToSTL to /dev/full with 3 full buffers - the 81st
    triangle's write fails (first 4096-byte flush), two batches are still to come
@@ -68,3 +145,13 @@ Proof. split; vm_compute; reflexivity. Qed.
 
 Example C12_leak_witness : spawned Pinned 16 (repeat true 5) = 80 /\ spawned Repaired 16 (repeat true 5) = 16.
 Proof. split; vm_compute; reflexivity. Qed.
+
+(* non-vacuity of the source-level theorems: the five calls parse with these shapes *)
+Example C12_source_shapes :
+  option_map w_opens (parse_writer (strip writeSTL)) = Some 2 /\
+  option_map (fun w => k_fallible (w_cons w)) (parse_writer (strip writeSTL)) = Some true /\
+  option_map (fun w => List.length (k_final (w_cons w))) (parse_writer (strip writeSTL)) = Some 3 /\
+  option_map w_opens (parse_writer (strip writeSVG)) = Some 0 /\
+  option_map d_returns (parse_driver (strip ToSVG)) = Some false /\
+  option_map d_returns (parse_driver (strip ToSTL)) = Some true.
+Proof. repeat split; vm_compute; reflexivity. Qed.
